@@ -571,7 +571,13 @@ impl<'a> World<'a> {
 
     pub fn stats_check(&mut self, m: usize, hd: &mut dyn DynMap) -> StepResult {
         let r = self.call("stats", |_| hd.stats())?;
-        let st = self.ok("stats", r)?;
+        let st = match r {
+            Err(e) if self.ep.checks.stats && !self.fault_active() => {
+                // a diagnostic call that cannot report is not reporting the true structure
+                return Err(viol("stats", format!("error:{:?}", e.kind()), self.step_no, format!("a statistics call returned Err({e}) on a healthy filesystem")));
+            }
+            other => self.ok("stats", other)?,
+        };
         if !self.ep.checks.stats {
             return Ok(());
         }
